@@ -339,7 +339,7 @@ def gen_td(rng, n, tag='d', nmax=300):
         for x in vals:
             w = 1.0
             if weighted:
-                w = rng.choice([1.0, 2.0, 0.5, 0.0, 3.25, 10.0 ** rng.randrange(-8, 9), rng.uniform(0.1, 5)])
+                w = rng.choice([1.0, 2.0, 0.5, 0.0, 3.25, 10.0 ** rng.randrange(-8, 9), rng.uniform(0.1, 5), 2.0 ** -60, 1e-17, 1e-300, 2.0 ** rng.randrange(-80, 21)])
             L.append('ins 0 %d %d' % (f64bits(x), f64bits(w)))
             r = rng.random()
             if r < 0.04:
@@ -548,7 +548,7 @@ def gen_hser(rng, n, tag='s'):
             bb = rng.choice([0, 3, 4, 18, 19, 64, 1 << 63, b + 1, b - 1 if b > 4 else 5])
             fields['B'] = 'B %d' % bb                            # b varied independently of the length
         elif style < 0.9:
-            ln = rng.choice([0, m - 1, m + 1, 2 * m, 1, m // 2])
+            ln = rng.choice([0, m - 1, m + 1, 2 * m, 1, m // 2, 3 * m, 5 * m, 6 * m, 7 * m])
             fields['R'] = 'R %d %s' % (ln, ' '.join(str(rng.randrange(60)) for _ in range(ln)))
         else:
             bad = list(regs); bad[rng.randrange(m)] = rng.choice([256, 1000, (1 << 64) - 1])
